@@ -125,13 +125,18 @@ def explore_states(ctx, impl, n):
         new = []
         for (st, ops), o in zip(batch, outs):
             segs = o.split(" | ")
-            res = segs[len(ops) - 1]
-            if res.startswith("ok "):
-                ns = tuple(ints(res[3:]))
-            elif " : " in res and not res.startswith("undef"):
-                ns = tuple(ints(res.split(" : ")[1]))
-            else:
+            if len(segs) < len(ops):
                 continue
+            res = segs[len(ops) - 1]
+            try:
+                if res.startswith("ok "):
+                    ns = tuple(ints(res[3:]))
+                elif " : " in res and not res.startswith("undef"):
+                    ns = tuple(ints(res.split(" : ")[1]))
+                else:
+                    continue
+            except ValueError:
+                continue   # garbage from a broken implementation: judged by the oracle below, not explored further
             if len(ns) == n and ns not in witness:
                 witness[ns] = ops
                 new.append(ns)
@@ -184,6 +189,19 @@ def random_dsu(ctx, count, maxn):
     return lines
 
 
+def robust(f):
+    """An oracle must give a verdict on any output of a (possibly broken) implementation: unparseable or
+    structurally unexpected output is a failure of the implementation, never an exception of the check."""
+    def g(*a):
+        try:
+            return f(*a)
+        except (ValueError, IndexError, KeyError, TypeError) as e:
+            return "unexpected output format (%s: %s)" % (type(e).__name__, str(e)[:80])
+    g.__name__ = f.__name__
+    return g
+
+
+@robust
 def dsu_oracle(line, out):
     """Oracle on the implementation's output alone: forest invariant after every op, classes = components of the
     merged pairs, root = minimum, island numbering ascending in the minimum tree."""
@@ -225,6 +243,8 @@ def dsu_oracle(line, out):
                 if r != "undef":
                     return "harness guard"
                 continue
+            if r == "undef":
+                return "a tree passed to mj_dsuMerge was not activated (parent still -1)"
             rr, ps = r.split(" : ")
             if int(rr) != uf.find(t):
                 return "mj_dsuRoot did not return the minimum tree of the class"
@@ -328,6 +348,7 @@ def gen_ff(ctx):
     return lines
 
 
+@robust
 def ff_oracle(line, out):
     f = line.split(":")
     try:
@@ -596,9 +617,17 @@ def run_scenes(ctx, drv, impl, lines, label="mj_island on mjSpec scenes vs Lean 
             if nfail <= 5:
                 ctx.oracle_failure("c17:engine-error", "mj_forward raised an error: " + o[:200], {"line": l, "replay": "echo '%s' | <c17_island harness>" % l})
             continue
-        d = parse_dump(o)
+        try:
+            d = parse_dump(o)
+            verdict, detail = scene_oracle(d)
+            cons = constraints_of(d)
+        except (ValueError, IndexError, KeyError, TypeError) as e:
+            nfail += 1
+            if nfail <= 5:
+                ctx.oracle_failure("c17:scene-garbage", "island arrays of the engine are not even well-formed (%s: %s)" % (type(e).__name__, str(e)[:80]),
+                                   {"line": l, "replay": "echo '%s' | <c17_island harness>" % l})
+            continue
         stats["scenes"] += 1
-        verdict, detail = scene_oracle(d)
         if verdict == "skip":
             stats["skipped"] += 1
             stats.setdefault("skip_reasons", {})
@@ -619,7 +648,6 @@ def run_scenes(ctx, drv, impl, lines, label="mj_island on mjSpec scenes vs Lean 
             if nfail <= 5:
                 ctx.oracle_failure(verdict, detail, {"line": l, "replay": "echo '%s' | <c17_island harness>" % l,
                                                      "nisland": d["nisland"], "tree_island": d.get("tree_island")})
-        cons = constraints_of(d)
         model_lines.append(island_line(d, cons))
         model_exp.append(engine_canonical(d))
         src.append(l)
